@@ -316,7 +316,14 @@ where
                 return ControlFlow::Break(());
             }
         };
-        self.init_channel(&policy);
+        // Only a schedule call that is accepted may (re-)create the channel endpoints. A rejected
+        // duplicate must leave the endpoints of the computation under way untouched.
+        if matches!(
+            self.state_kind,
+            PolicyStateKind::Init | PolicyStateKind::ValidateRequested { .. }
+        ) {
+            self.init_channel(&policy);
+        }
 
         if is_leader {
             if !matches!(self.state_kind, PolicyStateKind::Init) {
